@@ -339,8 +339,16 @@ func diffVal(path string, a, b *Value, o EqOpts) string {
 		used := make([]bool, len(b.Kids))
 	outer:
 		for i, ka := range a.Kids {
+			// (the same position first: the usual case, and what keeps large structs linear)
+			if !used[i] && diffVal("", ka, b.Kids[i], o) == "" {
+				used[i] = true
+				continue
+			}
 			for j, kb := range b.Kids {
-				if !used[j] && diffVal("", ka, kb, o) == "" {
+				if used[j] || (ka.Field != nil && kb.Field != nil && !ka.Field.Equal(*kb.Field)) {
+					continue
+				}
+				if diffVal("", ka, kb, o) == "" {
 					used[j] = true
 					continue outer
 				}
